@@ -53,7 +53,8 @@ type Result struct {
 	StopMs        int64    `json:"stop_ms"` // Stop latency from the moment nothing but in-flight work remains
 	Quiescent     bool     `json:"quiescent"`
 	TimerWait     bool     `json:"timer_wait"` // Stop not returned, relay quiescent: only the NAT timer can end the wait
-	BusyPolls     int      `json:"busy_polls"` // inspections past the limit that found runnable (starved) relay goroutines
+	BusyPolls     int      `json:"busy_polls"`
+	StallMs       int64    `json:"stall_ms"` // scheduling stall of this process during the Stop measurement (heartbeat, x4), subtracted from stop_ms // inspections past the limit that found runnable (starved) relay goroutines
 	WaitDump      string   `json:"wait_dump,omitempty"`
 	G0, G1, G2    int      `json:"-"`
 	GBase         int      `json:"g_base"`
@@ -101,16 +102,75 @@ func stacks() string {
 	return string(b[:runtime.Stack(b, true)])
 }
 
-// settle polls until goroutine and socket counts are at most (g, f) or the timeout passes.
-func settle(g, f int, d time.Duration) (int, int) {
-	end := time.Now().Add(d)
+// heartbeat measures how badly this process is being scheduled: a goroutine that sleeps 5 ms at a time and adds up
+// every millisecond it was woken late.  All deadlines of the harness are counted in EFFECTIVE time = wall time minus
+// a multiple of that stall, so that a starved child extends its own deadlines (up to a hard cap).
+type heartbeat struct{ stallNs atomic.Int64 }
+
+var hb = &heartbeat{}
+
+func (h *heartbeat) start() {
+	go func() {
+		const tick = 5 * time.Millisecond
+		last := time.Now()
+		for {
+			time.Sleep(tick)
+			now := time.Now()
+			if d := now.Sub(last) - tick; d > 2*time.Millisecond {
+				h.stallNs.Add(int64(d))
+			}
+			last = now
+		}
+	}()
+}
+
+func (h *heartbeat) stall() time.Duration { return time.Duration(h.stallNs.Load()) }
+
+// stallFactor: the heartbeat only sleeps; goroutines that also need CPU are delayed more than it is.
+const stallFactor = 4
+
+// clock counts effective time from its creation.
+type clock struct {
+	t0 time.Time
+	s0 time.Duration
+}
+
+func newClock() clock { return clock{time.Now(), hb.stall()} }
+func clockAt(t time.Time) clock { return clock{t, hb.stall()} }
+
+func (c clock) wall() time.Duration { return time.Since(c.t0) }
+func (c clock) stalled() time.Duration { return stallFactor * (hb.stall() - c.s0) }
+func (c clock) effective() time.Duration {
+	e := c.wall() - c.stalled()
+	if e < 0 {
+		e = 0
+	}
+	return e
+}
+
+// patient polls cond until it holds, or `base` of effective time has passed, or the hard cap (base + 30 s of wall time).
+func patient(base time.Duration, cond func() bool) bool {
+	c := newClock()
 	for {
-		cg, cf := runtime.NumGoroutine(), countFds()
-		if (cg <= g && cf <= f) || time.Now().After(end) {
-			return cg, cf
+		if cond() {
+			return true
+		}
+		if c.effective() >= base || c.wall() >= base+30*time.Second {
+			return cond()
 		}
 		time.Sleep(10 * time.Millisecond)
 	}
+}
+
+// settle polls until goroutine and socket counts are back to at most (g, f); it gives up after 5 s of effective time
+// (at most 35 s of wall time) and returns what it saw last.
+func settle(g, f int, _ time.Duration) (int, int) {
+	var cg, cf int
+	patient(5*time.Second, func() bool {
+		cg, cf = runtime.NumGoroutine(), countFds()
+		return cg <= g && cf <= f
+	})
+	return cg, cf
 }
 
 type logWatch struct {
@@ -128,14 +188,7 @@ func (w *logWatch) count(sub string) int {
 }
 
 func (w *logWatch) wait(sub string, n int, d time.Duration) bool {
-	end := time.Now().Add(d)
-	for w.count(sub) < n {
-		if time.Now().After(end) {
-			return false
-		}
-		time.Sleep(5 * time.Millisecond)
-	}
-	return true
+	return patient(d, func() bool { return w.count(sub) >= n })
 }
 
 func (w *logWatch) listenAddr(d time.Duration) string {
@@ -211,16 +264,26 @@ func (c *client) sendKind(seq uint32, unpack string) error {
 	return err
 }
 
-// recvAny waits for any datagram on the client socket.
+// recvAny waits for a datagram FROM THE RELAY on the client socket.  Other tests on the same machine use ephemeral
+// loopback ports too: a datagram still in flight towards a port this socket has just been given is not a reply.
 func (c *client) recvAny(d time.Duration) bool {
 	b := make([]byte, 2048)
-	c.uc.SetReadDeadline(time.Now().Add(d))
-	n, _, err := c.uc.ReadFromUDPAddrPort(b)
-	return err == nil && n > 0
+	end := time.Now().Add(d)
+	for {
+		c.uc.SetReadDeadline(end)
+		n, from, err := c.uc.ReadFromUDPAddrPort(b)
+		if err != nil {
+			return false
+		}
+		if n > 0 && from == c.relay {
+			return true
+		}
+	}
 }
 
 func runChild(sc Scenario) (res Result) {
 	res.StopMs = -1
+	hb.start() // before any baseline: the heartbeat goroutine is part of every count
 	// signal.Notify starts a runtime goroutine that never exits: start it before the baseline.
 	sigc := make(chan os.Signal, 1)
 	signal.Notify(sigc, syscall.SIGUSR2)
@@ -378,7 +441,7 @@ func runChild(sc Scenario) (res Result) {
 		res.RunOK = m.Run(ctx)
 		close(done)
 	}()
-	addr := watch.listenAddr(5 * time.Second)
+	addr := watch.listenAddr(20 * time.Second)
 	if addr == "" {
 		res.Err = "relay did not start"
 		return
@@ -442,7 +505,8 @@ func runChild(sc Scenario) (res Result) {
 		ok := true
 		for _, c := range clients {
 			got := false
-			for try := 0; try < 5 && !got; try++ {
+			ck := newClock()
+			for !got && ck.effective() < 6*time.Second && ck.wall() < 30*time.Second {
 				got = c.recvAny(time.Second)
 				if !got {
 					seq++
@@ -476,53 +540,65 @@ func runChild(sc Scenario) (res Result) {
 	stop := func(from func() time.Time) {
 		cancel()
 		t0 := from()
-		wd := time.NewTimer(time.Until(t0.Add(watchAt)))
-		defer wd.Stop()
-		select {
-		case <-done:
-		case <-wd.C:
-			for !res.StopReturned {
-				d := stacks()
-				dump, q := classifyDump(d)
-				if q {
-					// look twice: a goroutine woken between two states is not quiescence
-					time.Sleep(100 * time.Millisecond)
-					select {
-					case <-done:
-						res.StopReturned = true
-						continue
-					default:
-					}
-					_, q = classifyDump(stacks())
+		if d := time.Until(t0); d > 0 { // in-flight work ends later (held initialisation)
+			select {
+			case <-done:
+			case <-time.After(d):
+			}
+		}
+		ck := clockAt(t0)
+		// Stop latency is counted in effective time: what the heartbeat shows this process was not running is subtracted
+	wait:
+		for ck.effective() < watchAt {
+			select {
+			case <-done:
+				break wait
+			case <-time.After(20 * time.Millisecond):
+			}
+		}
+		returned := func() bool {
+			select {
+			case <-done:
+				return true
+			default:
+				return false
+			}
+		}
+		for !returned() {
+			dump, q := classifyDump(stacks())
+			if q {
+				// look twice: a goroutine woken between two states is not quiescence
+				time.Sleep(100 * time.Millisecond)
+				if returned() {
+					break
 				}
-				if q {
-					res.WaitDump, res.Quiescent, res.TimerWait = dump, true, true
-					select {
-					case <-done:
-						res.StopReturned = true
-					case <-time.After(time.Until(t0.Add(maxWait))):
-					}
-					res.StopMs = time.Since(t0).Milliseconds()
-					return
+				_, q = classifyDump(stacks())
+			}
+			if q {
+				res.WaitDump, res.Quiescent, res.TimerWait = dump, true, true
+				for !returned() && ck.effective() < maxWait && ck.wall() < maxWait+30*time.Second {
+					time.Sleep(20 * time.Millisecond)
 				}
-				res.WaitDump = dump
-				res.BusyPolls++
-				if time.Since(t0) > maxWait+10*time.Second {
-					res.StopMs = time.Since(t0).Milliseconds()
-					return
-				}
-				select {
-				case <-done:
-					res.StopReturned = true
-				case <-time.After(250 * time.Millisecond):
-				}
+				res.StopReturned = returned()
+				res.StopMs = ck.effective().Milliseconds()
+				res.StallMs = ck.stalled().Milliseconds()
+				return
+			}
+			res.WaitDump = dump
+			res.BusyPolls++
+			if ck.effective() > maxWait+10*time.Second || ck.wall() > maxWait+60*time.Second {
+				res.StopMs = ck.effective().Milliseconds()
+				res.StallMs = ck.stalled().Milliseconds()
+				return
+			}
+			select {
+			case <-done:
+			case <-time.After(250 * time.Millisecond):
 			}
 		}
 		res.StopReturned = true
-		res.StopMs = time.Since(t0).Milliseconds()
-		if res.StopMs < 0 {
-			res.StopMs = 0
-		}
+		res.StopMs = ck.effective().Milliseconds()
+		res.StallMs = ck.stalled().Milliseconds()
 	}
 	now := func() time.Time { return time.Now() }
 
@@ -563,6 +639,7 @@ func runChild(sc Scenario) (res Result) {
 		// a normal datagram of the same client must round-trip through a fresh session
 		sendAll()
 		res.ReplyAfter = firstReplies()
+		watch.wait("relay started", 2*nc, 2*time.Second)
 		res.StartedAfter = watch.count("relay started")
 		stop(now)
 	case "stop-idle":
@@ -602,7 +679,7 @@ func runChild(sc Scenario) (res Result) {
 					b := make([]byte, 2048)
 					for !halt.Load() {
 						c.uc.SetReadDeadline(time.Now().Add(50 * time.Millisecond))
-						if _, _, err := c.uc.ReadFromUDPAddrPort(b); err == nil {
+						if _, from, err := c.uc.ReadFromUDPAddrPort(b); err == nil && from == c.relay {
 							atomic.AddInt64(&res.Replies, 1)
 						}
 					}
@@ -624,7 +701,7 @@ func runChild(sc Scenario) (res Result) {
 	case "stop-init":
 		sendAll()
 		held := 0
-		to := time.After(3 * time.Second)
+		to := time.After(15 * time.Second)
 	waitHeld:
 		for held < nc {
 			select {
